@@ -576,6 +576,30 @@ fn sweep<'a, B: SddBuilder<'a>>(b: &'a B, cfg: &SCfg, ctx: &Ctx) -> Report {
     }
     let total = dom.len();
     let perm: Vec<usize> = if cfg.pool == 0 { issue_perm(cfg.issue, total).into_iter().map(|i| dom[i]).collect() } else { dom.clone() };
+    // read-only queries between construction and use (every second configuration): cached
+    // semantic hash (the one 64-bit field and map a builder is used with), a weighted count and
+    // the node count visit every materialised diagram and leave their memos behind
+    if cfg.issue % 2 == 1 && !s.stop {
+        use rsdd::repr::DDNNFPtr;
+        let hmap = rsdd::repr::create_semantic_hash_map::<{ primes::U64_LARGEST }>(n);
+        let wmap: rsdd::repr::WmcParams<rsdd::util::semirings::RealSemiring> = rsdd::repr::WmcParams::new(
+            (0..n).map(|v| (VarLabel::new(v as u64), (rsdd::util::semirings::RealSemiring(0.25), rsdd::util::semirings::RealSemiring(0.75)))).collect::<HashMap<_, _>>(),
+        );
+        for &t in dom.iter() {
+            let p = s.f[t];
+            let r = guarded(|| {
+                let _ = p.cached_semantic_hash(b.vtree_manager(), &hmap);
+                let _ = p.unsmoothed_wmc(&wmap);
+                let _ = p.count_nodes();
+            });
+            s.rep.evaluations += 3;
+            if let Err(e) = r {
+                s.viol(cfg.prop_fn(), "panic", format!("a read-only query on {:#x} panicked: {}", t, e), &SOp::Materialise(t as TT));
+            }
+        }
+        s.recheck_pool();
+        s.rep.add_extra("configurations_with_interleaved_queries", 1);
+    }
     // semantic builder: eq must agree with function equality over a pool
     if cfg.semantic && !s.stop {
         let pool: Vec<usize> = perm.iter().cloned().step_by((total / 64).max(1)).collect();
